@@ -31,6 +31,8 @@ type BOp struct {
 	M   string `json:"m,omitempty"`   // range callback behaviour: "" | "stop" | "panic"
 	// burst: N ms of put/get/commit on consumer C, GapUs apart, with Size observations; see the "sustain" profile
 	GapUs int `json:"gap_us,omitempty"`
+	// setcleaner: SetCleanerConfig while the buffer is in use (the cooldown of the scenario is kept); cfgget: CleanerConfig()
+	Cl *BCleaner `json:"cl,omitempty"`
 }
 
 type BCleaner struct {
@@ -160,6 +162,28 @@ const sustainSlack = 400 * time.Millisecond
 
 func (x *bufExec) do(g string, op BOp) {
 	switch op.K {
+	case "setcleaner":
+		if op.Cl == nil {
+			return
+		}
+		ctl.Gate("drv.call")
+		x.r.Call(g, "SetCleaner", "cleaner", map[string]any{"kind": op.Cl.Kind, "max": op.Cl.Max, "target": op.Cl.Target})
+		var err error
+		p := safeCall(func() {
+			err = x.b.SetCleanerConfig(bigbuff.CleanerConfig{Cleaner: mkCleaner(*op.Cl), Cooldown: time.Duration(x.sc.Cleaner.CooldownUs) * time.Microsecond})
+		})
+		x.r.Ret(g, "SetCleaner", "r", cls(err, p), "msg", msg(err, p))
+	case "badcleaner":
+		// invalid configurations are refused with an error and change nothing
+		ctl.Gate("drv.call")
+		var e1, e2 error
+		p := safeCall(func() {
+			e1 = x.b.SetCleanerConfig(bigbuff.CleanerConfig{Cleaner: nil})
+			e2 = x.b.SetCleanerConfig(bigbuff.CleanerConfig{Cleaner: bigbuff.DefaultCleaner, Cooldown: -1})
+		})
+		cfg := x.b.CleanerConfig()
+		x.r.Add(rec.Ev{"ev": "badcleaner", "g": g, "refused": e1 != nil && e2 != nil && p == "",
+			"cooldown_us": int(cfg.Cooldown / time.Microsecond), "want_us": x.sc.Cleaner.CooldownUs, "hasfn": cfg.Cleaner != nil})
 	case "burst":
 		// sustained traffic on a single consumer: state changes arrive faster than the cooldown for longer than
 		// cooldown + slack; Commit returns and Size calls carry timestamps (us since the start of the execution) and
@@ -680,10 +704,33 @@ func genBufScenario(rng *rand.Rand, profile string, mode string) *BScenario {
 				ops = append(ops, BOp{K: "nop", N: rng.Intn(6)})
 			}
 			ops = append(ops, op)
+			if (profile == "reclaim" || profile == "retention") && rng.Intn(10) == 0 {
+				// the cleaner configuration is replaced while the buffer is in use
+				cl := &BCleaner{Kind: "default"}
+				if rng.Intn(3) > 0 {
+					mx := rng.Intn(4)
+					cl = &BCleaner{Kind: "fixed", Max: mx, Target: rng.Intn(mx + 1)}
+				}
+				ops = append(ops, BOp{K: "setcleaner", Cl: cl})
+				if rng.Intn(4) == 0 {
+					ops = append(ops, BOp{K: "badcleaner"})
+				}
+			}
 		}
 		sc.Drivers = append(sc.Drivers, ops)
 	}
 	return sc
+}
+
+func mkCleaner(c BCleaner) bigbuff.Cleaner {
+	switch c.Kind {
+	case "fixed":
+		return bigbuff.FixedBufferCleaner(c.Max, c.Target, nil)
+	case "const":
+		k := c.Max
+		return func(size int, offsets []int) int { return k }
+	}
+	return bigbuff.DefaultCleaner
 }
 
 // bufProgram turns a behaviour generated by TLC from BufferGEN.tla (one caller, calls in order, the first record is
@@ -725,14 +772,7 @@ func runBufExec(execID int, sc *BScenario, mode string, seed int64, strategy str
 		x.ctxs[i], x.cancels[i] = context.WithCancel(context.Background())
 	}
 	x.r.Add(rec.Ev{"ev": "reset", "exec": execID, "cleaner": map[string]any{"kind": sc.Cleaner.Kind, "max": sc.Cleaner.Max, "target": sc.Cleaner.Target}, "mode": mode})
-	var cleaner bigbuff.Cleaner = bigbuff.DefaultCleaner
-	if sc.Cleaner.Kind == "fixed" {
-		cleaner = bigbuff.FixedBufferCleaner(sc.Cleaner.Max, sc.Cleaner.Target, nil)
-	}
-	if sc.Cleaner.Kind == "const" {
-		k := sc.Cleaner.Max
-		cleaner = func(size int, offsets []int) int { return k }
-	}
+	cleaner := mkCleaner(sc.Cleaner)
 	self := sched.Goid()
 	before := map[int64]bool{}
 	for _, g := range sched.Snapshot() {
